@@ -902,6 +902,16 @@ class Exec:
             self.stats["noop_steps"] += 1
             return
         if op == "a.set_attr":
+            if not getattr(self, "_all_built", False):
+                # as in the twin: every object (wrappers included) exists before the user assigns anything - a LinkedAsset copies
+                # attributes of the asset it links to when it is constructed (vp check 3, VERIF_SEED=1 run 108: the system built
+                # the wrapper lazily, after the assignment, the twin before it)
+                for aid_ in sorted(self.w["assets"], key=lambda a_: int(a_[1:])):
+                    try:
+                        self.B.asset(aid_)
+                    except Exception:
+                        pass
+                self._all_built = True
             a = self.B.asset(st["obj"])
             for attr in [st["attr"]] + list(st.get("alt", [])):     # the first listed attribute this asset has as a scalar
                 new = specs.bump_attr(a, attr)
